@@ -296,15 +296,26 @@ CASTS = {("str", "bool"): lambda s: {"true": True, "false": False}[s.lower()],
 _T = {"str": str, "bool": bool, "int": int}
 
 
+_NOCAST = object()
+
+
 def cast_value(cast, v):
-    """First declared cast whose source type matches and which succeeds, else v unchanged."""
+    """First declared cast whose source type matches and which succeeds, else _NOCAST (node left as it is)."""
     for frm, to in (cast or {}).items():
         if isinstance(v, _T[frm]):
             try:
                 return CASTS[(frm, to)](v)
             except Exception:
                 pass
-    return v
+    return _NOCAST
+
+
+def apply_casts(cur, W, cast):
+    for v, cp in W:
+        nv = cast_value(cast, v)
+        if nv is not _NOCAST:
+            cur = Update(cur, cp, nv)
+    return cur
 
 
 def Update(doc, path, v):
@@ -321,9 +332,7 @@ def RuleTestSpec(rule, doc, cast_doc=None):
     cur = doc if cast_doc is None else cast_doc
     W = Walk(rule["path"]["parts"], doc)
     if rule.get("cast"):
-        for v, cp in W:
-            nv = cast_value(rule["cast"], v)
-            cur = Update(cur, cp, nv)
+        cur = apply_casts(cur, W, rule["cast"])
         W = Walk(rule["path"]["parts"], cur)
     elif cast_doc is not None:
         W = Walk(rule["path"]["parts"], cur)
@@ -361,8 +370,7 @@ def SchemaSpec(schema, doc):
 
 def _cast_rule(rule, doc, cur):
     W = Walk(rule["path"]["parts"], doc)
-    for v, cp in W:
-        cur = Update(cur, cp, cast_value(rule["cast"], v))
+    cur = apply_casts(cur, W, rule["cast"])
     W2 = Walk(rule["path"]["parts"], cur)
     if not W2:
         return dict(valid=True, tested=False, failures=[], cast_doc=cur)
